@@ -295,6 +295,10 @@ def run(fx, tier):
             v.check(ok, 'R-DOM', '%s::operator()(%s)%s [%s]' % (cls, tag, f.inst()[:40], f.tu),
                     'a reconnect-worthy transport error starts async_reconnect and resumes at on_reconnect',
                     key='C02:R-DOM:%s:reconnect-trigger' % cls, where=f.file)
+    # an unacknowledged exchange is never ended by anybody but its acknowledgement, a re-send or cancel()
+    from c04 import waiter_completion_rules
+    v.rule('R-OWN', 'who may complete a parked reply handler, and with what')
+    waiter_completion_rules(fx, v, 'C02')
     v.expect_min('R-VALUES', 40, 'completion sites + raw I/O sites')
     v.expect_min('R-CGRAPH', 60, 'request-continuation paths')
     v.expect_min('R-FLOW', 10, 're-send paths')
